@@ -100,7 +100,8 @@ addrxlat2kdump(kdump_ctx_t *ctx, addrxlat_status status)
 	if (status == ADDRXLAT_OK)
 		return KDUMP_OK;
 
-	if (status < 0)
+	if (status < 0 && status >= -(addrxlat_status)KDUMP_ERR_ADDRXLAT)
+		/* a kdump status translated by kdump2addrxlat() */
 		ret = -status;
 	else if (status == ADDRXLAT_ERR_NODATA)
 		ret = KDUMP_ERR_NODATA;
